@@ -265,6 +265,12 @@ func checkC13(rc *Run) error {
 		xdir := filepath.Join(rc.Out, "extra")
 		os.MkdirAll(xdir, 0o755)
 		text := "l: &l [{x: 1}, {y: 2}]\nd:\n  <<: *l\n  z: 3\n"
+		// a merged key must not be lost because a later VALUE spells its name
+		lost := runProc(xdir, []byte("x: &x {p: 1}\ny: &y {q: 2}\nb:\n  <<: [*x, *y]\n  r: q\n"), "-o=json", "-I0", "explode(.) | .b | [.p, .q, .r]")
+		if got := strings.TrimSpace(lost.Stdout); got != `[1,2,"q"]` {
+			rc.Report("extra:merge-list-entry-lost", fmt.Sprintf("explode of b: {<<: [*x, *y], r: q} with x = {p: 1}, y = {q: 2} gives [.p, .q, .r] = %s; the merge-key rules give [1,2,\"q\"]", got),
+				M{"machine": "Anchors", "concrete": M{"argv": []string{"yq", "-o=json", "-I0", "explode(.) | .b | [.p, .q, .r]"}, "input_yaml": "x: &x {p: 1}\ny: &y {q: 2}\nb:\n  <<: [*x, *y]\n  r: q\n"}, "observed": got})
+		}
 		for _, xc := range []struct{ name, expr, want string }{
 			{"traverse", `[.d.x, .d.y, .d.z]`, `[1,2,3]`},
 			{"explode", `explode(.) | .d | [.x, .y, .z, length]`, `[1,2,3,3]`},
